@@ -27,4 +27,13 @@ PROPS = {
         ],
         'explanation': 'NavigationState stack discipline, reset, undo lemma, pop_stack and set_navigation_node_from_id proved for all stack depths and contents',
     },
+    'C18': {
+        'verus': [],
+        'kani': ['U18a'],
+        'technique': 'Kani/CBMC on the real crate: the phf lookup SHIFT_AMOUNTS.get for every char, and MATH_VARIANTS block starts + shift_char for every (style, alphabet, index), against a specification table generated at run time from the Unicode Character Database',
+        'level_text': 'complete (full-domain, loop-free symbolic) proof of the two scalar kernels of the mathvariant mapping against a UCD-derived table: every char for the lookup, every (style, alphabet, index) for the block arithmetic and the exception list, validity of the from_u32_unchecked result; the specification table itself is checked one-to-one and assigned',
+        'level_note': 'oracle = UCD names via python unicodedata; the glue loop of shift_text (for ch in chars / push) is not executed by Kani (String code is out of reach, measured); unknown variant names and the DOM side of canonicalize_plane1 are not covered',
+        'not_covered': ['the `for ch in old_text.chars()` glue of shift_text (12 lines) joining the two kernels', 'canonicalize_plane1 reading the attribute and writing the text back (DOM)', 'unknown mathvariant names (two-line match arm)'],
+        'explanation': 'C18 mechanism decided on its scalar kernels for their full domains',
+    },
 }
